@@ -329,10 +329,10 @@ class NotMemorizedFunc(object):
     def __init__(self, func):
         self.func = func
 
-    def __call__(self, *args, **kwargs):
+    def __call__(self, /, *args, **kwargs):
         return self.func(*args, **kwargs)
 
-    def call_and_shelve(self, *args, **kwargs):
+    def call_and_shelve(self, /, *args, **kwargs):
         return NotMemorizedResult(self.func(*args, **kwargs))
 
     def __repr__(self):
@@ -342,10 +342,10 @@ class NotMemorizedFunc(object):
         # Argument "warn" is for compatibility with MemorizedFunc.clear
         pass
 
-    def call(self, *args, **kwargs):
+    def call(self, /, *args, **kwargs):
         return self.func(*args, **kwargs), {}
 
-    def check_call_in_cache(self, *args, **kwargs):
+    def check_call_in_cache(self, /, *args, **kwargs):
         return False
 
 
@@ -353,7 +353,7 @@ class NotMemorizedFunc(object):
 # class `AsyncNotMemorizedFunc`
 ###############################################################################
 class AsyncNotMemorizedFunc(NotMemorizedFunc):
-    async def call_and_shelve(self, *args, **kwargs):
+    async def call_and_shelve(self, /, *args, **kwargs):
         return NotMemorizedResult(await self.func(*args, **kwargs))
 
 
@@ -594,7 +594,7 @@ class MemorizedFunc(Logger):
             self._func_code_info = get_func_code(self.func)
         return self._func_code_info
 
-    def call_and_shelve(self, *args, **kwargs):
+    def call_and_shelve(self, /, *args, **kwargs):
         """Call wrapped function, cache result and return a reference.
 
         This method returns a reference to the cached result instead of the
@@ -612,7 +612,7 @@ class MemorizedFunc(Logger):
         # Return the wrapped output, without the metadata
         return self._cached_call(args, kwargs, shelving=True)[0]
 
-    def __call__(self, *args, **kwargs):
+    def __call__(self, /, *args, **kwargs):
         # Return the output, without the metadata
         return self._cached_call(args, kwargs, shelving=False)[0]
 
@@ -632,7 +632,7 @@ class MemorizedFunc(Logger):
 
         return state
 
-    def check_call_in_cache(self, *args, **kwargs):
+    def check_call_in_cache(self, /, *args, **kwargs):
         """Check if the function call is cached and valid for given arguments.
 
         Does not call the function or do any work besides function inspection
@@ -655,7 +655,7 @@ class MemorizedFunc(Logger):
     # Private interface
     # ------------------------------------------------------------------------
 
-    def _get_args_id(self, *args, **kwargs):
+    def _get_args_id(self, /, *args, **kwargs):
         """Return the input parameter hash of a result."""
         return hashing.hash(
             filter_args(self.func, self.ignore, args, kwargs),
@@ -829,7 +829,7 @@ class MemorizedFunc(Logger):
         func_code, _, first_line = self.func_code_info
         self._write_func_code(func_code, first_line)
 
-    def call(self, *args, **kwargs):
+    def call(self, /, *args, **kwargs):
         """Force the execution of the function with the given arguments.
 
         The output values will be persisted, i.e., the cache will be updated
@@ -971,17 +971,17 @@ class MemorizedFunc(Logger):
 # class `AsyncMemorizedFunc`
 ###############################################################################
 class AsyncMemorizedFunc(MemorizedFunc):
-    async def __call__(self, *args, **kwargs):
+    async def __call__(self, /, *args, **kwargs):
         out = self._cached_call(args, kwargs, shelving=False)
         out = await out if asyncio.iscoroutine(out) else out
         return out[0]  # Don't return metadata
 
-    async def call_and_shelve(self, *args, **kwargs):
+    async def call_and_shelve(self, /, *args, **kwargs):
         out = self._cached_call(args, kwargs, shelving=True)
         out = await out if asyncio.iscoroutine(out) else out
         return out[0]  # Don't return metadata
 
-    async def call(self, *args, **kwargs):
+    async def call(self, /, *args, **kwargs):
         out = super().call(*args, **kwargs)
         return await out if asyncio.iscoroutine(out) else out
 
@@ -1212,7 +1212,7 @@ class Memory(Logger):
         # Defers the actual limits enforcing to the store backend.
         self.store_backend.enforce_store_limits(bytes_limit, items_limit, age_limit)
 
-    def eval(self, func, *args, **kwargs):
+    def eval(self, func, /, *args, **kwargs):
         """Eval function func with arguments `*args` and `**kwargs`,
         in the context of the memory.
 
